@@ -409,7 +409,7 @@ def gen_cases(rng, tier):
     # observation rows, 8 iterations, and EVERY stopping point k = 0..8 of the same run (iterations=k is a prefix of
     # iterations=k+1): results returned right after an escape-node step, after a node improvement, after convergence;
     # node values compared across consecutive stopping points and across every recorded evaluation
-    n_sweep = 12 if tier == "quick" else 40
+    n_sweep = 12 if tier == "quick" else 24
     for i in range(n_sweep):
         # one third: dense dynamics, full-support observation rows peaked on the next state; two thirds: nearly
         # deterministic dynamics with deterministic / sparse observations, so that at the beliefs of escape steps some
@@ -655,6 +655,13 @@ def run(ctx):
                                     "assertion": tr_.strip().splitlines()[-2].strip() if tr_.strip() else None, "error": r["error"],
                                     "trace": tr_, "clause": "the learner must always return a (valid) controller"}, found=True)
                     continue
+                if (learner == "bpi" and r["error"].startswith("TypeError") and frames and "fscboundedpolicyiteration.py" in frames[-1]
+                        and ("in scipy_lp" in frames[-1] or "in cvxpy_lp" in frames[-1])):
+                    # the LP solver returned no solution (e.g. HiGHS "infeasible" on an exactly feasible but nearly degenerate
+                    # LP) and msdm uses the missing solution without looking at the solver status
+                    report("C09:bpi:lp-solver-failure-status-unchecked",
+                           {"case": case, "error": r["error"], "trace": tr_, "clause": "the learner must always return a controller"}, found=True)
+                    continue
                 report("C09:%s:raises:%s" % (learner, r["error"].split(":")[0]),
                        {"case": case, "error": r["error"], "trace": r.get("trace"),
                         "clause": "the learner must always return a controller"}, found=True)
@@ -750,7 +757,7 @@ def run(ctx):
                     terms.append("stp %s %s %s %s %s %s" % (pt, f2, q(F(1, 10 ** 6) * sc), qmat(lp["V_in"]), nat(lp["node"]), q(lp["epsilon"])))
                     meta.append(("stp", i, {"lp": lp}))
 
-    vals = ctx.coq(PRE, terms, shard=10 if tier == "quick" else 14)
+    vals = ctx.coq(PRE, terms, shard=10 if tier == "quick" else 30)
     counts = {"ev": 0, "hi": 0, "lc": 0, "mc": 0, "stp": 0}
     cert_ok = eval_defect = hist_defect = hist_equal = hist_theorem_cases = hist_total = hist_drift = 0
     for (kind, i, extra), v in zip(meta, vals):
